@@ -319,12 +319,13 @@ theorem sim_err1 {w : World} {j : JState} (h : RP w j) :
   cases hc : w.cur with
   | none =>
     have hjc : j.cur = none := by rw [← h.1.cur, hc]
-    have e1 : errorHandler w = w := by unfold errorHandler; rw [hc]
+    have e1 : errorHandler w = w := by rw [errorHandler_eq_ref]; unfold errorHandlerRef; rw [hc]
     have e2 : jErr1 j = j := by unfold jErr1; rw [hjc]
     rw [e1, e2]; exact ⟨h.1, Frame.refl j⟩
   | some c =>
     have hjc : j.cur = some c := by rw [← h.1.cur, hc]
-    have e1 : errorHandler w = { setHeartBeat w c 0 with cur := none } := by unfold errorHandler; rw [hc]
+    have e1 : errorHandler w = { setHeartBeat w c 0 with cur := none } := by
+      rw [errorHandler_eq_ref]; unfold errorHandlerRef; rw [hc]
     have e2 : jErr1 j = { jDisableAlive j c with cur := none } := by unfold jErr1; rw [hjc]
     have h0 := (sim_disableAlive h c).1
     have hf := jDisableAlive_frame j c
@@ -390,6 +391,19 @@ theorem sim_destLeaf {w : World} {j : JState} (h : RP w j) (t : Nat) (hat : w.al
     · subst hx'; rw [hs.1.known, hfl.1, ← h.1.known]; exact hknown
     · exact hs.1.sub x hx'
   · intro hr; exact hs.2 hr
+
+/-- reload_object: O_ENABLE_COMMANDS and the variables are cleared, the heart beat is switched off, create() enables it
+    again: for the heart-beat list this is "disable, then set_heart_beat(n)" -/
+theorem sim_reload {w : World} {j : JState} (h : RP w j) (t : Nat) (n : Int) (hat : w.alive t = true)
+    (lv : List Nat) (nb : Nat → Nat) :
+    RP (setHeartBeat (setHeartBeat { w with living := lv, nb := nb } t 0) t (satEfun n)) (jSet (jDisable j t) t n) := by
+  have hR0 : RP { w with living := lv, nb := nb } j :=
+    ⟨⟨h.1.hbs, h.1.known, h.1.nofn, h.1.dead, h.1.flag, h.1.cur, h.1.ok, h.1.cap, h.1.sub⟩, h.2⟩
+  have hd0 : ({ w with living := lv, nb := nb } : World).dead.contains t = false := alive_not_dead hat
+  have hs1 := sim_disable hR0 t hd0
+  have hd1 : (setHeartBeat { w with living := lv, nb := nb } t 0).dead.contains t = false := by
+    rw [hs1.1.dead, (jDisable_fields j t).2.2.1, ← h.1.dead]; exact alive_not_dead hat
+  exact sim_set hs1 t n hd1
 
 theorem sim_stepOpBasic {w : World} {j : JState} (h : RP w j) (ha : opAllowed j = true) (self : Nat) (op : Op) :
     StepOK w j (stepOpBasic w self op) := by
@@ -522,6 +536,43 @@ theorem sim_stepOpBasic {w : World} {j : JState} (h : RP w j) (ha : opAllowed j 
     · exact stepOK_one (by decide) rfl
         ⟨⟨h.1.hbs, h.1.known, h.1.nofn, h.1.dead, h.1.flag, h.1.cur, h.1.ok, h.1.cap, h.1.sub⟩, h.2⟩ (Frame.refl j)
     · exact stepOK_one (by decide) rfl h (Frame.refl j)
+  | cerr =>
+    have hst : stepOpBasic w self .cerr = (w, [.caught self], .ok) := rfl
+    rw [hst]
+    exact stepOK_one (by decide) rfl h (Frame.refl j)
+  | reload t n =>
+    by_cases hc : (!w.alive t || decide (t < 2)) = true
+    · have hc' : (j.alive t && !decide (t < 2)) = false := by
+        rw [← hal]; cases hx : w.alive t <;> cases hy : decide (t < 2) <;> simp_all
+      have hst : stepOpBasic w self (.reload t n) = (w, [.reloadNone self t], .ok) := by
+        simp only [stepOpBasic]; rw [if_pos hc]
+      rw [hst]
+      exact stepOK_one (by decide) (by simp only [judge1]; rw [if_neg (by rw [hc']; decide)]) h (Frame.refl j)
+    · let w0 : World := { w with living := w.living.filter (fun x => x != t), nb := fun o => if o = t then 0 else w.nb o }
+      have hst : stepOpBasic w self (.reload t n) =
+          (setHeartBeat (setHeartBeat w0 t 0) t (satEfun n),
+           [Ev.reload self t n (queryHeartBeat (setHeartBeat (setHeartBeat w0 t 0) t (satEfun n)) t)], .ok) := by
+        simp only [stepOpBasic, gen_efunSat_eq]; rw [if_neg hc]
+      simp only [Bool.not_eq_true] at hc
+      have hat : w.alive t = true := by cases hx : w.alive t <;> simp_all
+      have ht2 : decide (t < 2) = false := by cases hy : decide (t < 2) <;> simp_all
+      have hjt : j.alive t = true := by rw [← hal, hat]
+      have hs2 : RP (setHeartBeat (setHeartBeat w0 t 0) t (satEfun n)) (jSet (jDisable j t) t n) :=
+        sim_reload h t n hat (w.living.filter (fun x => x != t)) (fun o => if o = t then 0 else w.nb o)
+      have hq := query_eq hs2.1 t
+      rw [hst, hq]
+      exact stepOK_one (by decide) (by simp [judge1, ha, hjt, ht2]) hs2
+        (Frame.trans (jDisable_frame j t) (jSet_frame (jDisable j t) t n))
+  | living =>
+    have hst : stepOpBasic w self .living = ({ w with living := self :: w.living, cg := some self }, [.living self], .ok) := rfl
+    rw [hst]
+    exact stepOK_one (by decide) rfl
+      ⟨⟨h.1.hbs, h.1.known, h.1.nofn, h.1.dead, h.1.flag, h.1.cur, h.1.ok, h.1.cap, h.1.sub⟩, h.2⟩ (Frame.refl j)
+  | burn =>
+    have hst : stepOpBasic w self .burn = ({ w with ec := false }, [.burn self], .ok) := rfl
+    rw [hst]
+    exact stepOK_one (by decide) rfl
+      ⟨⟨h.1.hbs, h.1.known, h.1.nofn, h.1.dead, h.1.flag, h.1.cur, h.1.ok, h.1.cap, h.1.sub⟩, h.2⟩ (Frame.refl j)
 
 theorem stepOK_nil (w : World) (j : JState) (h : RP w j) : StepOK w j (w, [], .ok) := by
   unfold StepOK
@@ -579,6 +630,10 @@ theorem stepOpBasic_ok (w : World) (self : Nat) (op : Op) (h : hookAllowed op = 
   | dest t => cases h
   | err => cases h
   | take i => cases h
+  | cerr => cases h
+  | reload t n => cases h
+  | living => cases h
+  | burn => cases h
 
 theorem runOpsBasic_ok (self : Nat) : ∀ (ops : List Op) (w : World), (∀ op ∈ ops, hookAllowed op = true) →
     (runOpsBasic w self ops).2.2 = .ok := by
@@ -714,6 +769,10 @@ theorem sim_stepOp {w : World} {j : JState} (h : RP w j) (ha : opAllowed j = tru
   | flag => exact sim_stepOpBasic h ha self _
   | hbs => exact sim_stepOpBasic h ha self _
   | take i => exact sim_stepOpBasic h ha self _
+  | cerr => exact sim_stepOpBasic h ha self _
+  | reload t n => exact sim_stepOpBasic h ha self _
+  | living => exact sim_stepOpBasic h ha self _
+  | burn => exact sim_stepOpBasic h ha self _
 
 theorem sim_runOps (self : Nat) : ∀ (ops : List Op) (w : World) (j : JState), RP w j → opAllowed j = true →
     StepOK w j (runOps w self ops) := by
@@ -781,7 +840,7 @@ def Done (w' : World) (j' j : JState) : Prop :=
 theorem done_end {w : World} {j : JState} (h0 : R0 w j) (he : j.expect = .endOfRound) :
     Done (finish w) (judge1 j .tickEnd) j := by
   have : judge1 j .tickEnd = endRound j := by simp [judge1, he]
-  rw [this]
+  rw [this, finish_ref]
   refine ⟨⟨?_, h0.known, h0.nofn, h0.dead, h0.flag, rfl, h0.ok, h0.cap, h0.sub⟩, rfl, rfl, rfl⟩
   show w.hbs = _
   rw [h0.hbs]; simp [endRound]
@@ -837,13 +896,15 @@ theorem sim_roundRef (sc : Scripts) : ∀ (fuel : Nat) (w : World) (j : JState),
         simp only [hfw, if_true]
         -- the entry beats
         have hadv := advance_fire hp hf
-        generalize hw1 : ({ w with hbs := w.hbs.set w.idx.toNat { x with ticks := x.interval }, cur := some x.ob, nb := fun o => if o = x.ob then w.nb o + 1 else w.nb o } : World) = w1
+        generalize hw1 : ({ w with hbs := w.hbs.set w.idx.toNat { x with ticks := x.interval }, cur := some x.ob, cg := if w.living.contains x.ob then some x.ob else none, ec := true, nb := fun o => if o = x.ob then w.nb o + 1 else w.nb o } : World) = w1
         have hset : w1.hbs = (j.done ++ [{ x with ticks := x.interval }]) ++ rest ++ j.late := by
           rw [← hw1]; show w.hbs.set w.idx.toNat _ = _
           rw [hn, hhbs, set_mid]; simp
         let j2 : JState := { j with done := j.done ++ [{ x with ticks := x.interval }], pend := rest, cur := some x.ob, expect := .inBeat }
         have hj2 : judge1 (advance j) (.beat x.ob) = j2 := by
           rw [hadv, judge1_beat rfl]
+        have hjc : judge1 j2 (.ctx x.ob (w.living.contains x.ob) (if w.living.contains x.ob then some x.ob else none) true) = j2 := by
+          simp [judge1, j2, ctxGiver]
         have hR2 : RP w1 j2 := by
           refine ⟨⟨hset, ?_, ?_, ?_, ?_, ?_, ?_, ?_, ?_⟩, ?_⟩
           · rw [← hw1]; exact h0.known
@@ -873,7 +934,7 @@ theorem sim_roundRef (sc : Scripts) : ∀ (fuel : Nat) (w : World) (j : JState),
               simp only [if_true] at hops
               obtain ⟨a, b, c, d, e⟩ := hops
               dsimp only
-              simp only [List.foldl_cons, List.foldl_append, List.foldl_nil, hj2]
+              simp only [List.foldl_cons, List.foldl_append, List.foldl_nil, hj2, hjc]
               have hd := done_abort a (by rw [d]; simp [j2, hin]) e
               exact ⟨hd.1, hd.2.1.trans b, hd.2.2.1, hd.2.2.2⟩
             | _ =>
@@ -884,15 +945,15 @@ theorem sim_roundRef (sc : Scripts) : ∀ (fuel : Nat) (w : World) (j : JState),
               have hin3 : j3.inRound = true := by rw [hF3.inRound]; exact hin
               have hex3 : j3.expect = .inBeat := by rw [hF3.expect]
               obtain ⟨p1, p2⟩ := hR3.2 hin3
-              have hR03 : R0 { w2 with idx := w2.idx + 1 } j3 :=
+              have hR03 : R0 { w2 with cg := none, idx := w2.idx + 1 } j3 :=
                 ⟨hR3.1.hbs, hR3.1.known, hR3.1.nofn, hR3.1.dead, hR3.1.flag, hR3.1.cur, hR3.1.ok, hR3.1.cap, hR3.1.sub⟩
               by_cases hfin : (decide (w2.idx + 1 = w2.todo) || w2.flag) = true
               · simp only [hfin, if_true]
-                simp only [List.foldl_cons, List.foldl_append, List.foldl_nil, hj2, hj3]
+                simp only [List.foldl_cons, List.foldl_append, List.foldl_nil, hj2, hjc, hj3]
                 cases htr : j3.trunc with
                 | true =>
                   rw [judge1_beatEnd_trunc hex3 htr]
-                  have hd := done_end (w := { w2 with idx := w2.idx + 1 }) (j := { j3 with expect := .endOfRound })
+                  have hd := done_end (w := { w2 with cg := none, idx := w2.idx + 1 }) (j := { j3 with expect := .endOfRound })
                     ⟨hR03.hbs, hR03.known, hR03.nofn, hR03.dead, hR03.flag, hR03.cur, hR03.ok, hR03.cap, hR03.sub⟩ rfl
                   exact ⟨hd.1, hd.2.1.trans hF3.bad, hd.2.2.1, hd.2.2.2⟩
                 | false =>
@@ -903,7 +964,7 @@ theorem sim_roundRef (sc : Scripts) : ∀ (fuel : Nat) (w : World) (j : JState),
                     have : j3.pend.length = 0 := by omega
                     exact List.eq_nil_of_length_eq_zero this
                   rw [advance_nil hpe]
-                  have hd := done_end (w := { w2 with idx := w2.idx + 1 }) (j := { j3 with expect := .endOfRound })
+                  have hd := done_end (w := { w2 with cg := none, idx := w2.idx + 1 }) (j := { j3 with expect := .endOfRound })
                     ⟨hR03.hbs, hR03.known, hR03.nofn, hR03.dead, hR03.flag, hR03.cur, hR03.ok, hR03.cap, hR03.sub⟩ rfl
                   exact ⟨hd.1, hd.2.1.trans hF3.bad, hd.2.2.1, hd.2.2.2⟩
               · simp only [hfin, Bool.false_eq_true, if_false]
@@ -917,12 +978,12 @@ theorem sim_roundRef (sc : Scripts) : ∀ (fuel : Nat) (w : World) (j : JState),
                   have := hF3.pend
                   have h2 : j2.pend.length = rest.length := rfl
                   omega
-                have hih := ih { w2 with idx := w2.idx + 1 } j3 hR03 hin3 (by show w2.idx + 1 = _; omega)
+                have hih := ih { w2 with cg := none, idx := w2.idx + 1 } j3 hR03 hin3 (by show w2.idx + 1 = _; omega)
                   (by show w2.todo = _; omega) hpne hple
-                cases hrr : roundRef sc fuel { w2 with idx := w2.idx + 1 } with
+                cases hrr : roundRef sc fuel { w2 with cg := none, idx := w2.idx + 1 } with
                 | mk w4 evs' =>
                   rw [hrr] at hih
-                  simp only [List.foldl_cons, List.foldl_append, hj2, hj3]
+                  simp only [List.foldl_cons, List.foldl_append, hj2, hjc, hj3]
                   rw [judge1_beatEnd_adv hex3 htr]
                   exact ⟨hih.1, hih.2.1.trans hF3.bad, hih.2.2.1, hih.2.2.2⟩
       | false =>
@@ -988,22 +1049,37 @@ theorem sim_tick (sc : Scripts) {w : World} {j : JState} (h : Idle w j) :
   obtain ⟨h0, hin, hex, hbad⟩ := h
   let j0 : JState := { j with done := [], pend := j.done ++ j.pend ++ j.late, late := [], inRound := true, trunc := false }
   have hjb : judge1 j .tickBegin = advance j0 := by simp [judge1, hex, j0]
-  unfold tick
+  rw [tick_eq_ref]
+  unfold tickRef
+  cases hon : hbOn w.tflags with
+  | false =>
+    -- timer_flags without TIMER_FLAG_HEARTBEAT: no round, nobody beats, the list is left alone
+    simp only [Bool.false_eq_true, if_false, List.foldl_cons, List.foldl_nil]
+    have hjo : judge1 j .tickOff = { j with expect := .endOfRound, trunc := false } := by simp [judge1, hex]
+    have hje : judge1 { j with expect := .endOfRound, trunc := false } .tickEnd =
+        endRound { j with expect := .endOfRound, trunc := false } := by
+      simp [judge1]
+    rw [hjo, hje]
+    refine ⟨⟨?_, h0.known, h0.nofn, h0.dead, rfl, rfl, h0.ok, h0.cap, h0.sub⟩, rfl, rfl, hbad⟩
+    show w.hbs = _
+    rw [h0.hbs]; simp [endRound]
+  | true =>
+  simp only [if_true]
   by_cases hpos : ((w.hbs.length : Int) > 0)
   · simp only [hpos, if_true]
-    have hR : R0 { w with flag := false, todo := (w.hbs.length : Int), idx := 0 } j0 :=
+    have hR : R0 { w with flag := false, idx := 0, todo := (w.hbs.length : Int) } j0 :=
       ⟨by show w.hbs = [] ++ (j.done ++ j.pend ++ j.late) ++ []; rw [h0.hbs]; simp,
        h0.known, h0.nofn, h0.dead, rfl, h0.cur, h0.ok, h0.cap, h0.sub⟩
     have hne : j0.pend ≠ [] := by
       intro hnil
       have : w.hbs = [] := by rw [h0.hbs]; exact hnil
       rw [this] at hpos; simp at hpos
-    have hd := sim_round sc w.hbs.length { w with flag := false, todo := (w.hbs.length : Int), idx := 0 } j0 hR rfl
+    have hd := sim_round sc w.hbs.length { w with flag := false, idx := 0, todo := (w.hbs.length : Int) } j0 hR rfl
       (by show (0 : Int) = (([] : List Entry).length : Int); simp)
       (by show (w.hbs.length : Int) = (([] : List Entry).length : Int) + ((j.done ++ j.pend ++ j.late).length : Int)
           rw [h0.hbs]; simp)
       hne (by show (j.done ++ j.pend ++ j.late).length ≤ w.hbs.length; rw [h0.hbs]; exact Nat.le_refl _)
-    cases hr : round sc w.hbs.length { w with flag := false, todo := (w.hbs.length : Int), idx := 0 } with
+    cases hr : round sc w.hbs.length { w with flag := false, idx := 0, todo := (w.hbs.length : Int) } with
     | mk w' evs =>
       rw [hr] at hd
       dsimp only
@@ -1016,12 +1092,12 @@ theorem sim_tick (sc : Scripts) {w : World} {j : JState} (h : Idle w j) :
       | cons a b => rw [hh] at hpos; simp at hpos
     have hp0 : j0.pend = [] := by show j.done ++ j.pend ++ j.late = []; rw [← h0.hbs]; exact hnil
     simp only [List.foldl_cons, List.foldl_nil, hjb, advance_nil hp0]
-    have hd := done_end (w := { w with flag := false, todo := (w.hbs.length : Int) }) (j := { j0 with expect := .endOfRound })
-      ⟨by show w.hbs = [] ++ (j.done ++ j.pend ++ j.late) ++ []; rw [h0.hbs]; simp,
-       h0.known, h0.nofn, h0.dead, rfl, h0.cur, h0.ok, h0.cap, h0.sub⟩ rfl
-    refine ⟨⟨?_, hd.1.known, hd.1.nofn, hd.1.dead, hd.1.flag, ?_, hd.1.ok, hd.1.cap, hd.1.sub⟩, hd.2.2.1, hd.2.2.2, hd.2.1.trans hbad⟩
-    · exact hd.1.hbs
-    · exact hd.1.cur
+    have hje : judge1 { j0 with expect := .endOfRound } .tickEnd = endRound { j0 with expect := .endOfRound } := by
+      simp [judge1]
+    rw [hje]
+    refine ⟨⟨?_, h0.known, h0.nofn, h0.dead, rfl, rfl, h0.ok, h0.cap, h0.sub⟩, rfl, rfl, hbad⟩
+    show w.hbs = _
+    rw [h0.hbs]; simp [endRound, j0]
 
 /-- one top-level command -/
 theorem sim_stepCmd (sc : Scripts) {w : World} {j : JState} (h : Idle w j) (c : Cmd) :
@@ -1031,6 +1107,12 @@ theorem sim_stepCmd (sc : Scripts) {w : World} {j : JState} (h : Idle w j) (c : 
   | tick =>
     simp only [stepCmd, hok, Bool.false_eq_true, if_false]
     exact sim_tick sc h
+  | tflags n =>
+    obtain ⟨h0, hin, hex, hbad⟩ := h
+    simp only [stepCmd, hok, Bool.false_eq_true, if_false, List.foldl_cons, List.foldl_nil]
+    have : judge1 j (.tflags (n : Int)) = j := rfl
+    rw [this]
+    exact ⟨⟨h0.hbs, h0.known, h0.nofn, h0.dead, h0.flag, h0.cur, rfl, h0.cap, h0.sub⟩, hin, hex, hbad⟩
   | op self op =>
     obtain ⟨h0, hin, hex, hbad⟩ := h
     simp only [stepCmd, hok, Bool.false_eq_true, if_false]
